@@ -30,7 +30,7 @@ from ..selftest import Variant
 
 LEVEL = "other"
 META = {
-    "technique": "static analysis: writer/reader table agreement (classifier literal table vs tokens built by rules; token attribute schema: stores vs declarations vs reads), must-precede ordering of derived-state refreshes in rule_list.fix by structured-flow dominance, shape of the emitter",
+    "technique": "static analysis: writer/reader table agreement (classifier literal table vs tokens built by rules; token attribute schema: stores vs declarations vs reads), must-precede ordering of derived-state refreshes in rule_list.fix by structured-flow dominance, shape of the emitter; non-zero must-guard on blank products whose length is an option or action value",
     "level_text": "Decides necessary conditions for model == re-parse that hold for all inputs: tokens a fix creates use exactly the text their class is read from, "
     "token attributes are written under the names they are read by, derived state (indent levels, blank-line tokens, index) is refreshed at the points where "
     "earlier phases changed the shape of the model, and the emitter prints the model's lines verbatim.",
